@@ -9,6 +9,11 @@ use std::time::Instant;
 
 pub const VERIF_DIR: &str = "/verif";
 
+/// where evidence and replay files are written: /verif, unless a background run from a snapshot redirects it
+pub fn out_dir() -> String {
+    std::env::var("VERIF_OUT_DIR").unwrap_or_else(|_| VERIF_DIR.to_string())
+}
+
 #[derive(Clone, Copy, PartialEq, Eq, Debug)]
 pub enum Tier {
     Quick,
@@ -383,7 +388,7 @@ impl Run {
         let unstored = total_viol - viols.len() as u64;
         let mut replay_paths = vec![];
         if !self.replay_mode {
-            let dir = format!("{}/replays/{}", VERIF_DIR, self.prop);
+            let dir = format!("{}/replays/{}", out_dir(), self.prop);
             let _ = std::fs::create_dir_all(&dir);
             // remove stale replays of earlier runs
             if let Ok(rd) = std::fs::read_dir(&dir) {
@@ -451,8 +456,8 @@ impl Run {
             "violations": unknown.len() as u64 + unstored,
         });
         if !self.replay_mode {
-            let _ = std::fs::create_dir_all(format!("{}/evidence", VERIF_DIR));
-            let p = format!("{}/evidence/{}.json", VERIF_DIR, self.prop);
+            let _ = std::fs::create_dir_all(format!("{}/evidence", out_dir()));
+            let p = format!("{}/evidence/{}.json", out_dir(), self.prop);
             if std::fs::write(&p, serde_json::to_string_pretty(&ev).unwrap()).is_err() {
                 machinery_error("cannot write evidence file");
             }
